@@ -35,21 +35,31 @@ def mask_tag(ppp):
     return "mask-full" if np.all(ppp) else ("mask-open" if not np.any(ppp) else "mask-partial")
 
 
+def _seed(case):
+    return case.get("seed", 0)
+
+
 # ============================================================================= bond-orientational order (shared)
+
+BOO_PROTOCOLS = ("fresh", "fresh", "inplace", "twice", "outfile", "interleave")
 
 
 @st.composite
-def boo_case(draw, d):
-    allowed = ["translate", "lattice", "perm", "axes", "rotate"]
+def boo_case(draw, d, size="mixed"):
+    allowed = ["translate", "lattice", "perm", "axes", "rotate", "swap"]
     want = draw(C.pick(allowed))
-    N = draw(st.integers(4, 10))
-    cell = draw(cell_st(d, "ortho" if want == "axes" else "any", lmin=2.0, lmax=20.0, origin="any"))
+    K = draw(st.integers(2, 3)) if want == "swap" else draw(st.integers(1, 2))       # labels are ignored by the routine
+    N, bulk = draw(C.size_st((max(4, K), 14), size, boundary_hi=133 if d == 3 else 260, large=(199, 513)))
+    cell = draw(cell_st(d, "any", lmin=2.0, lmax=20.0, origin="any"))
+    if C.chance(draw, 5):
+        cell = C.integerise(cell)
     ppp = draw(C.ppp_for(d, want))
-    case = draw(config_st(d, N, cell, K=1, frames=(1, 2), ppp=ppp))
+    case = draw(C.any_config_st(d, N, bulk, cell, K, (1, 1) if bulk else (1, 2), ppp))
     F = len(case["pos"])
-    cmax = min(N - 1, draw(C.pick([3, 4, 6, 8])))
+    cmax = min(N - 1, draw(C.pick([3, 4, 6, 8, 10, 12])))
     mode = draw(C.pick(["nearest", "random"]))
     Lmin = float(np.diag(cell["H"]).min())
+    rng = np.random.default_rng(case["seed"] + 2) if bulk else None
     nl, degenerate = [], False
     for f in range(F):
         ii, jj, _, dist, tie = geom.pair_table(case["pos"][f], cell["H"], ppp)
@@ -63,26 +73,52 @@ def boo_case(draw, d):
                 degenerate = True
                 lists.append([(i + 1) % N])
                 continue
-            cn = draw(st.integers(1, min(cmax, len(good))))
+            top = min(cmax, len(good))
+            cn = int(rng.integers(1, top + 1)) if bulk else draw(st.integers(1, top))
+            if i == N - 1 and not degenerate:
+                cn = top                     # the frame maximum is always reached (cn == Nmax classes)
             if mode == "nearest":
                 js = good[np.argsort(D[i, good], kind="stable")][:cn]
+            elif bulk:
+                js = good[rng.permutation(len(good))[:cn]]
             else:
                 idx = draw(st.lists(st.integers(0, len(good) - 1), min_size=cn, max_size=cn, unique=True))
                 js = good[idx]
             lists.append([int(j) for j in js])
         nl.append(lists)
-    wmode = draw(C.pick(["none", "none", "random"]))
+    # boo_2d documents weights of either sign (normalised by the sum of absolute values); boo_3d divides by the plain sum
+    wmode = draw(C.pick(["none", "none", "random"] + (["mixed-sign"] if d == 2 else [])))
     w = None
-    if wmode == "random":
+    if wmode != "none":
         w = []
         for f in range(F):
-            tab = draw(dense((N, cmax), st.one_of(st.sampled_from([1.0, 0.5, 2.0]), fl(0.05, 20.0))))
+            if bulk:
+                tab = rng.uniform(0.05, 20.0, size=(N, cmax))
+            else:
+                tab = draw(dense((N, cmax), st.one_of(st.sampled_from([1.0, 0.5, 2.0]), fl(0.05, 20.0))))
+            if wmode == "mixed-sign":
+                sg = rng.integers(0, 2, size=tab.shape) if bulk else draw(hnp.arrays(np.int64, tab.shape, elements=st.integers(0, 1)))
+                tab = tab * (2.0 * sg - 1.0)
             w.append([[float(x) for x in tab[i, :len(nl[f][i])]] for i in range(N)])
-    case.update(nl=nl, w=w, wmode=wmode, lmode=mode, degenerate=degenerate,
-                rows0=[list(draw(st.permutations(range(N)))) for _ in range(F)],
-                rows1=[list(draw(st.permutations(range(N)))) for _ in range(F)],
-                l=draw(C.pick([1, 2, 3, 4, 4, 5, 6, 6, 6, 7, 8, 10, 12])), wcg=draw(st.booleans()))
-    case["tf"] = draw(tf_st(allowed, N=N, K=1, d=d, F=F, ortho=cell["kind"] == "ortho", ppp=ppp, first=want))
+    maxcn = max(len(x) for fr in nl for x in fr)
+    default_nmax = 30 if d == 3 else 10
+    nmax_mode = draw(C.pick(["default", "exact", "exact", "plus", "large"]))
+    if nmax_mode == "default" and maxcn > default_nmax:
+        nmax_mode = "exact"
+    if bulk:
+        rows0 = [list(rng.permutation(N)) for _ in range(F)]
+        rows1 = [list(rng.permutation(N)) for _ in range(F)]
+    else:
+        rows0 = [list(draw(st.permutations(range(N)))) for _ in range(F)]
+        rows1 = [list(draw(st.permutations(range(N)))) for _ in range(F)]
+    case.update(nl=nl, w=w, wmode=wmode, lmode=mode, degenerate=degenerate, rows0=rows0, rows1=rows1, maxcn=maxcn,
+                nmax_mode=nmax_mode,
+                Nmax={"default": None, "exact": maxcn, "plus": maxcn + draw(st.integers(1, 3)), "large": 200}[nmax_mode],
+                l=draw(C.pick([1, 2, 3, 4, 4, 5, 6, 6, 6, 7, 8, 10, 12] if not (bulk and d == 3) else [2, 3, 4, 5, 6, 6])),
+                wcg=draw(st.booleans()), l_other=draw(C.pick([1, 2, 3, 4, 5, 6])), obs="boo3d" if d == 3 else "boo2d",
+                proto=draw(C.pick(BOO_PROTOCOLS)), intcell=True,
+                bins=draw(st.integers(3, 12)), binfrac=draw(fl(0.15, 0.85)))
+    case["tf"] = draw(tf_st(allowed, N=N, K=K, d=d, F=F, ortho=cell["kind"] == "ortho", ppp=ppp, first=want, rng=rng))
     return case
 
 
@@ -112,85 +148,207 @@ def near_pole(v):
 
 def boo_tags(case):
     tf = case["tf"]
-    return [case["cell"]["kind"], mask_tag(case["ppp"]), f"l{case['l']}", f"frames{len(case['pos'])}",
-            ("wigner-cg" if case["wcg"] else "wigner-local") if (case["l"] <= 6 and case["d"] == 3) else "wigner-none",
-            "w-" + case["wmode"], "lists-" + case["lmode"], "outside" if case["outside"] else "inside",
-            case["kind"].split("+")[0].split(":")[0]] + tf_tags(tf)
+    l = case["l"]
+    obs = ["q_l", "Q_l", "w_l", "w-hat_l", "sij"] if case["d"] == 3 else ["psi_l"]
+    return C.config_tags(case) + [
+        f"l{l}", "l-odd" if l % 2 else "l-even",
+        ("wigner-cg" if case["wcg"] else "wigner-local") if (l <= 6 and case["d"] == 3 and len(case["types"]) <= 33)
+        else "wigner-none",
+        "w-" + case["wmode"], "lists-" + case["lmode"], "Nmax-" + case["nmax_mode"],
+        f"maxcn{case['maxcn']}" if case["maxcn"] >= 10 else "maxcn<10"] + tf_tags(tf, obs + ["G_l(r)"])
+
+
+def boo_extra_tol(case, new, bv):
+    """relative rounding noise of a bond direction: coordinate noise / shortest bond used"""
+    dmin = float(np.sqrt((bv * bv).sum(axis=1)).min())
+    return C.coord_noise(case, new) / max(dmin, 1e-300)
+
+
+def corr_rdelta(case):
+    return float(np.diag(case["cell"]["H"]).min()) / 2.0 / (case["bins"] + case["binfrac"])
+
+
+def compare_corr(name, df0, df1, case, new, tf, extra):
+    """spatial correlation table (conditional_gr): r, the plain g(r) and the bond-order weighted G_l(r); bins with a
+    pair on one of their edges are not decided (same rule as g(r))."""
+    from .c07_static import gr_ambiguous_bins
+    for nm, df in ((name + "(original)", df0), (name + "(transformed)", df1)):
+        columns(nm, df, ["r", "gr", "gA"])
+    o0 = {n: arr(f"{name}[{n}]", col(name, df0, n), ndim=1).astype(float) for n in ("r", "gr", "gA")}
+    o1 = {n: arr(f"{name}[{n}]", col(name, df1, n), shape=o0[n].shape).astype(float) for n in ("r", "gr", "gA")}
+    require(len(o0["r"]) == case["bins"], lambda: f"{name}: {len(o0['r'])} bins, int(Lmin / 2 / rdelta) = {case['bins']}")
+    rd = corr_rdelta(case)
+    noise_bins = 8.0 * C.coord_noise(case, new) / rd
+    amb = gr_ambiguous_bins(dict(case, K=1), rd, case["bins"], noise_bins)["gr"]
+    ok = ~amb
+    close_tol(f"{name}: r column", o1["r"], o0["r"], atol=0.0, rtol=1e-9)
+    if ok.any():
+        # gA is a signed sum of pair weights |w| <= sum_m |q_lm|^2 <= (2l+1)/4pi < 2.5: errors scale with the gross sum
+        gscale = max(1.0, float(np.abs(o0["gr"][ok]).max()))
+        for n, ex, scale in (("gr", 0.0, gscale), ("gA", extra, 2.5 * gscale)):
+            close_tol(f"{name}: column {n}", o1[n][ok], o0[n][ok], atol=(1e-11 + ex) * scale, rtol=1e-8, equal_nan=True)
+    return int(amb.sum())
 
 
 # ----------------------------------------------------------------------------- boo_3d
 
 
-def run_boo3(name, c, nl, w, rows, l, tag, wcg):
+def run_boo3(name, c, nl, w, rows, l, tag, wcg, snaps=None, side=0, case=None):
+    case = c if case is None else case
+    proto = case.get("proto", "fresh")
     F, N = len(c["pos"]), len(c["types"])
     nfile = f"nb{tag}.dat"
     wfile = write_boo_files(c, nl, w, rows, nfile, f"w{tag}.dat")
-    snaps = gen.snapshots_from(c)
+    snaps = gen.snapshots_from(c) if snaps is None else snaps
     kw = {"weightsfile": wfile} if wfile else {}
+    if case.get("Nmax") is not None:
+        kw["Nmax"] = int(case["Nmax"])
+    outfile = proto == "outfile" and side == 1
     with np.errstate(all="ignore"):
         b = boo_3d(snaps, l=int(l), neighborfile=nfile, ppp=np.array(c["ppp"]), **kw)
+        C.KEPT.add(f"{name} smallqlm", b.smallqlm)
+        C.KEPT.add(f"{name} largeQlm", b.largeQlm)
         out = {}
         for cg in (False, True):
-            out["q", cg] = arr(f"{name} ql_Ql(cg={cg})", b.ql_Ql(coarse_graining=cg), shape=(F, N)).astype(float)
+            okw = {"outputfile": f"ql_{int(cg)}.npy"} if outfile else {}
+            raw = C.KEPT.add(f"{name} ql_Ql(cg={cg})", b.ql_Ql(coarse_graining=cg, **okw))
+            out["q", cg] = arr(f"{name} ql_Ql(cg={cg})", raw, shape=(F, N)).astype(float)
+            if okw:
+                require(os.path.exists(okw["outputfile"]), f"{name}: ql_Ql outputfile not written")
+            if proto == "twice":
+                again = C.KEPT.add(f"{name} ql_Ql(cg={cg}) #2", b.ql_Ql(coarse_graining=cg))
+                C.same_again(f"{name} ql_Ql(cg={cg})", out["q", cg], arr(name, again, shape=(F, N)).astype(float))
             if cg != wcg:       # the Wigner contraction multiplies sympy Floats (0.1-0.3 s per call): one variant per case
                 continue
-            res = b.w_W_cap(coarse_graining=cg)
+            okw = {"outputw": "w_out.npy", "outputwcap": "wcap_out.npy"} if outfile else {}
+            res = b.w_W_cap(coarse_graining=cg, **okw)
             require(isinstance(res, tuple) and len(res) == 2, f"{name}: w_W_cap must return (w, w_cap)")
+            C.KEPT.add(f"{name} w_W_cap(cg={cg})", list(res))
             out["w", cg] = arr(f"{name} w(cg={cg})", res[0], shape=(F, N)).astype(float)
             out["wc", cg] = arr(f"{name} w_cap(cg={cg})", res[1], shape=(F, N)).astype(float)
+            if okw:
+                require(os.path.exists("w_out.npy") and os.path.exists("wcap_out.npy"), f"{name}: w_W_cap output files not written")
+        # bond correlation s_ij of the (wcg or local) variant, and the spatial correlation table of the local q_lm
+        cgs = bool(wcg)
+        sij = b.sij_ql_Ql(coarse_graining=cgs)
+        require(isinstance(sij, list) and len(sij) == F, f"{name}: sij_ql_Ql must return one array per snapshot")
+        width = int(case["Nmax"]) if case.get("Nmax") is not None else 30
+        out["sij"] = [arr(f"{name} sij frame {f}", C.KEPT.add(f"{name} sij[{f}]", x), shape=(N, 2 + width)).astype(float)
+                      for f, x in enumerate(sij)]
+        if N <= 40:
+            out["corr"] = C.KEPT.add(f"{name} spatial_corr", b.spatial_corr(coarse_graining=False, rdelta=corr_rdelta(case)))
     return out
 
 
 def check_boo3(case):
     tf = case["tf"]
+    kept = C.new_kept()
     tags = boo_tags(case)
     if case["degenerate"]:
         return {"nontrivial": False, "tags": tags + ["skip-no-usable-bond"]}
     l = case["l"]
+    F, N = len(case["pos"]), len(case["types"])
     new = apply_tf(case, tf)
     nl1 = C.permute_lists(case["nl"], tf["perm"])
     w1 = None if case["w"] is None else C.permute_lists(case["w"], tf["perm"], values=True)
-    if near_pole(bond_vectors(case, case["nl"])) or near_pole(bond_vectors(new, nl1)):
+    bv0, bv1 = bond_vectors(case, case["nl"]), bond_vectors(new, nl1)
+    if near_pole(bv0) or near_pole(bv1):
         return {"nontrivial": False, "tags": tags + ["skip-near-pole"]}
-    wcg = case["wcg"] if l <= 6 else None
-    o0 = run_boo3("boo_3d(original)", case, case["nl"], case["w"], case["rows0"], l, "0", wcg)
-    o1 = run_boo3("boo_3d(transformed)", new, nl1, w1, case["rows1"], l, "1", wcg)
+    # the Wigner contraction multiplies sympy Floats per particle (7 ms each): not for the large systems
+    wcg = case["wcg"] if (l <= 6 and N <= 33) else None
+
+    def run(c, sn, side):
+        out = run_boo3("boo_3d(transformed)" if side else "boo_3d(original)", c, nl1 if side else case["nl"],
+                       w1 if side else case["w"], case["rows1"] if side else case["rows0"], l, str(side), wcg, sn, side, case)
+        if side == 0 and case["proto"] == "interleave":
+            # another degree on other data between the two evaluations: results of degree l handed out before must
+            # not move (per-degree work buffers)
+            run_boo3("boo_3d(other degree)", new, nl1, w1, case["rows1"], case["l_other"], "x", None, None, 0,
+                     dict(case, proto="fresh"))
+            run_boo3("boo_3d(same degree, other data)", new, nl1, w1, case["rows1"], l, "y", None, None, 0,
+                     dict(case, proto="fresh"))
+        return out
+    o0, o1, ptags = C.two_runs(case, new, run)
     inv = inv_perm(tf["perm"])
     sign = float(round(np.linalg.det(linear_part(tf, 3)))) ** l      # w_l is a pseudo-scalar for odd l
+    ex = (l + 1) * max(boo_extra_tol(case, new, bv0), boo_extra_tol(case, new, bv1))
     asserted = 0
     for cg in (False, True):
         nm = "coarse-grained " if cg else ""
         q0 = o0["q", cg][:, inv]
-        close_tol(f"boo_3d {nm}q_l", o1["q", cg], q0, atol=1e-11, rtol=1e-8)
+        close_tol(f"boo_3d {nm}q_l", o1["q", cg], q0, atol=1e-11 + ex, rtol=1e-8)
         if cg != wcg:
             continue
-        close_tol(f"boo_3d {nm}w_l", o1["w", cg], sign * o0["w", cg][:, inv], atol=1e-12, rtol=1e-8)
+        close_tol(f"boo_3d {nm}w_l", o1["w", cg], sign * o0["w", cg][:, inv], atol=1e-12 + ex, rtol=1e-8)
         norm2 = q0 ** 2 * (2 * l + 1) / (4 * np.pi)
         ok = norm2 >= 1e-4
         asserted += int(ok.sum())
         if ok.any():
             close_tol(f"boo_3d {nm}w-hat_l", o1["wc", cg][ok], sign * o0["wc", cg][:, inv][ok],
-                      atol=1e-13 / norm2[ok] ** 1.5, rtol=1e-8)
-    return {"nontrivial": C.nondegenerate(o0["q", False]), "tags": tags, "extra": {"w_hat_asserted": asserted}}
+                      atol=(1e-13 + ex) / norm2[ok] ** 1.5, rtol=1e-8)
+    # s_ij: row perm[i] of the relabelled system = row i of the original (id and cn columns mapped, bond order kept);
+    # stored as float32 (2 ulp at 1.0 = 2.4e-7); asserted where both bond-order vectors have a usable norm
+    qn = o0["q", bool(wcg)]
+    sij_asserted = 0
+    for f in range(F):
+        a0, a1 = o0["sij"][f], o1["sij"][f]
+        perm = np.asarray(tf["perm"], dtype=int)
+        close_tol("boo_3d sij table: id column", a1[:, 0], np.arange(N) + 1.0, atol=0.0, rtol=0.0)
+        close_tol("boo_3d sij table: CN column", a1[perm, 1], a0[:, 1], atol=0.0, rtol=0.0)
+        for i in range(N):
+            js = case["nl"][f][i]
+            require(int(a0[i, 1]) == len(js), lambda: f"boo_3d sij: particle {i + 1} has CN {a0[i, 1]}, its list has {len(js)}")
+            good = np.array([(qn[f, i] ** 2) * (2 * l + 1) / (4 * np.pi) >= 1e-4 and
+                             (qn[f, j] ** 2) * (2 * l + 1) / (4 * np.pi) >= 1e-4 for j in js], dtype=bool)
+            if good.any():
+                sij_asserted += int(good.sum())
+                close_tol(f"boo_3d s_ij of particle {i + 1} (new id {perm[i] + 1})", a1[perm[i], 2:2 + len(js)][good],
+                          a0[i, 2:2 + len(js)][good], atol=2.5e-7 + 100 * ex, rtol=0.0)
+            pad0, pad1 = a0[i, 2 + len(js):], a1[perm[i], 2 + len(js):]
+            require(not pad0.any() and not pad1.any(), lambda: f"boo_3d sij: entries beyond the coordination number of "
+                    f"particle {i + 1} are not zero")
+    namb = 0
+    if "corr" in o0 and not C.tri_tie(case):
+        namb = compare_corr("boo_3d spatial_corr", o0["corr"], o1["corr"], case, new, tf, 10 * ex)
+        tags.append("G_l(r)-asserted")
+    return {"nontrivial": C.nondegenerate(o0["q", False]), "tags": tags + ptags,
+            "extra": {"w_hat_asserted": asserted, "sij_asserted": sij_asserted, "corr_bins_ambiguous": namb,
+                      "kept_results_rechecked": kept.verify()}}
 
 
 # ----------------------------------------------------------------------------- boo_2d
 
 
-def run_boo2(name, c, nl, w, rows, l, tag):
+def run_boo2(name, c, nl, w, rows, l, tag, snaps=None, side=0, case=None):
+    case = c if case is None else case
+    proto = case.get("proto", "fresh")
     F, N = len(c["pos"]), len(c["types"])
     nfile = f"nb{tag}.dat"
     wfile = write_boo_files(c, nl, w, rows, nfile, f"w{tag}.dat")
-    snaps = gen.snapshots_from(c)
+    snaps = gen.snapshots_from(c) if snaps is None else snaps
     kw = {"weightsfile": wfile} if wfile else {}
+    if case.get("Nmax") is not None:
+        kw["Nmax"] = int(case["Nmax"])
+    if proto == "outfile" and side == 1:
+        kw["output_phi"] = "phi_out.npy"
     b = boo_2d(snaps, l=int(l), neighborfile=nfile, ppp=np.array(c["ppp"]), **kw)
-    psi = arr(f"{name} ParticlePhi", b.ParticlePhi, shape=(F, N))
+    psi = arr(f"{name} ParticlePhi", C.KEPT.add(f"{name} ParticlePhi", b.ParticlePhi), shape=(F, N))
     require(np.iscomplexobj(psi), f"{name}: order parameter is not complex")
-    return psi
+    if "output_phi" in kw:
+        require(os.path.exists("phi_out.npy"), f"{name}: output_phi file not written")
+    if proto == "twice":
+        again = arr(f"{name} lthorder() #2", C.KEPT.add(f"{name} lthorder #2", b.lthorder()), shape=(F, N))
+        C.same_again(f"{name} lthorder (real part)", psi.real, again.real)
+        C.same_again(f"{name} lthorder (imaginary part)", psi.imag, again.imag)
+    corr = None
+    if N <= 40:
+        corr = C.KEPT.add(f"{name} spatial_corr", b.spatial_corr(rdelta=corr_rdelta(case)))
+    return psi.copy(), corr
 
 
 def check_boo2(case):
     tf = case["tf"]
+    kept = C.new_kept()
     tags = boo_tags(case)
     if case["degenerate"]:
         return {"nontrivial": False, "tags": tags + ["skip-no-usable-bond"]}
@@ -198,41 +356,64 @@ def check_boo2(case):
     new = apply_tf(case, tf)
     nl1 = C.permute_lists(case["nl"], tf["perm"])
     w1 = None if case["w"] is None else C.permute_lists(case["w"], tf["perm"], values=True)
-    p0 = run_boo2("boo_2d(original)", case, case["nl"], case["w"], case["rows0"], l, "0")
-    p1 = run_boo2("boo_2d(transformed)", new, nl1, w1, case["rows1"], l, "1")
+
+    def run(c, sn, side):
+        out = run_boo2("boo_2d(transformed)" if side else "boo_2d(original)", c, nl1 if side else case["nl"],
+                       w1 if side else case["w"], case["rows1"] if side else case["rows0"], l, str(side), sn, side, case)
+        if side == 0 and case["proto"] == "interleave":
+            run_boo2("boo_2d(other degree)", new, nl1, w1, case["rows1"], case["l_other"], "x", None, 0, dict(case, proto="fresh"))
+            run_boo2("boo_2d(same degree, other data)", new, nl1, w1, case["rows1"], l, "y", None, 0, dict(case, proto="fresh"))
+        return out
+    (p0, c0), (p1, c1), ptags = C.two_runs(case, new, run)
     inv = inv_perm(tf["perm"])
     want = p0[:, inv]
-    close_tol("boo_2d |psi_l|", np.abs(p1), np.abs(want), atol=1e-11, rtol=1e-8)
+    ex = l * max(boo_extra_tol(case, new, bond_vectors(case, case["nl"])), boo_extra_tol(case, new, bond_vectors(new, nl1)))
+    close_tol("boo_2d |psi_l|", np.abs(p1), np.abs(want), atol=1e-11 + ex, rtol=1e-8)
     # the complex value itself: unchanged by translations / lattice shifts / relabelling, multiplied by exp(i l alpha)
     # under a proper rotation by alpha (l-fold definition); a reflection (axis swap) only fixes the modulus
     if tf["axes"] is None:
         phase = np.exp(1j * l * tf["angle"]) if tf["R"] is not None else 1.0
-        close_tol("boo_2d psi_l (complex value, rotated by exp(i l alpha))", p1, phase * want, atol=1e-10, rtol=1e-8)
+        close_tol("boo_2d psi_l (complex value, rotated by exp(i l alpha))", p1, phase * want, atol=1e-10 + 2 * ex, rtol=1e-8)
         tags.append("phase-asserted")
-    return {"nontrivial": C.nondegenerate(np.abs(p0)), "tags": tags}
+    namb = 0
+    if c0 is not None and not C.tri_tie(case):
+        namb = compare_corr("boo_2d spatial_corr", c0, c1, case, new, tf, 10 * ex)
+        tags.append("G_l(r)-asserted")
+    return {"nontrivial": C.nondegenerate(np.abs(p0)), "tags": tags + ptags,
+            "extra": {"corr_bins_ambiguous": namb, "kept_results_rechecked": kept.verify()}}
 
 
 # ============================================================================= tetrahedral order
 
 
 @st.composite
-def tetra_case(draw):
-    allowed = ["translate", "lattice", "perm", "axes", "rotate"]
+def tetra_case(draw, size="mixed"):
+    allowed = ["translate", "lattice", "perm", "axes", "rotate", "swap"]
     want = draw(C.pick(allowed))
-    N = 5 if draw(st.integers(0, 4)) == 0 else draw(st.integers(6, 14))
-    cell = draw(cell_st(3, "ortho" if want == "axes" else "any", lmin=2.0, lmax=20.0, origin="any"))
+    K = draw(st.integers(2, 3)) if want == "swap" else draw(st.integers(1, 2))       # labels are ignored by the routine
+    N, bulk = draw(C.size_st((6, 14), size))
+    if not bulk and C.chance(draw, 5):
+        N = 5
+    cell = draw(cell_st(3, "any", lmin=2.0, lmax=20.0, origin="any"))
+    if C.chance(draw, 5):
+        cell = C.integerise(cell)
     ppp = draw(C.ppp_for(3, want))
-    case = draw(config_st(3, N, cell, K=1, frames=(1, 2), ppp=ppp))
-    case["tf"] = draw(tf_st(allowed, N=N, K=1, d=3, F=len(case["pos"]), ortho=cell["kind"] == "ortho", ppp=ppp,
-                            first=want))
+    case = draw(C.any_config_st(3, N, bulk, cell, K, (1, 1) if bulk else (1, 2), ppp))
+    case["obs"] = "tetrahedral"
+    case["proto"] = draw(C.pick(["fresh", "fresh", "inplace", "outfile"]))
+    case["intcell"] = True
+    case["tf"] = draw(tf_st(allowed, N=N, K=K, d=3, F=len(case["pos"]), ortho=cell["kind"] == "ortho", ppp=ppp,
+                            first=want, rng=np.random.default_rng(case["seed"] + 1) if bulk else None))
     return case
 
 
-def tetra_ambiguous(case):
+def tetra_ambiguous(case, noise=0.0):
+    """(undecided particles, shortest distance to one of the four nearest neighbours)"""
     H = case["cell"]["H"]
     Lmax, Lmin = float(np.diag(H).max()), float(np.diag(H).min())
     F, N = len(case["pos"]), len(case["types"])
     amb = np.zeros((F, N), dtype=bool)
+    dmin = np.inf
     for f in range(F):
         ii, jj, _, dist, tie = C.pair_info(case, f)
         D = np.full((N, N), np.inf)
@@ -242,38 +423,47 @@ def tetra_ambiguous(case):
         for i in range(N):
             o = np.argsort(D[i])
             d4 = D[i, o[3]]
-            tol = EPS * (d4 + Lmax)
+            tol = EPS * (d4 + Lmax) + 8.0 * noise
             amb[f, i] = bool((N - 1 > 4 and D[i, o[4]] - d4 <= tol) or np.any(T[i] & (D[i] <= d4 + tol))
                              or D[i, o[0]] < 1e-7 * Lmin)
-    return amb
+            if not amb[f, i]:
+                dmin = min(dmin, float(D[i, o[0]]))
+    return amb, dmin
 
 
-def run_tetra(name, c):
-    snaps = gen.snapshots_from(c)
+def run_tetra(name, c, snaps=None, side=0):
+    proto = c.get("proto", "fresh")
+    snaps = gen.snapshots_from(c) if snaps is None else snaps
+    kw = {"outputfile": "tetra_out.npy"} if (proto == "outfile" and side == 1) else {}
     with np.errstate(all="ignore"):
-        q = q8_tetrahedral(snaps, ppp=np.array(c["ppp"]))
+        q = C.KEPT.add(name, q8_tetrahedral(snaps, ppp=np.array(c["ppp"]), **kw))
+    if kw:
+        require(os.path.exists("tetra_out.npy"), f"{name}: outputfile not written")
     return arr(name, q, shape=(len(c["pos"]), len(c["types"]))).astype(float)
 
 
 def check_tetra(case):
     tf = case["tf"]
+    kept = C.new_kept()
     N = len(case["types"])
-    tags = ["N5" if N == 5 else "N6+", case["cell"]["kind"], mask_tag(case["ppp"]), f"frames{len(case['pos'])}",
-            "outside" if case["outside"] else "inside", case["kind"].split("+")[0].split(":")[0]] + tf_tags(tf)
+    tags = ["N5" if N == 5 else "N6+"] + C.config_tags(case) + tf_tags(tf, "tetrahedral")
     if C.tri_tie(case):
         return {"nontrivial": False, "tags": tags + ["skip-tri-tie"]}
     new = apply_tf(case, tf)
-    q0 = run_tetra("q8_tetrahedral(original)", case)
-    q1 = run_tetra("q8_tetrahedral(transformed)", new)
-    amb = tetra_ambiguous(case)
+    q0, q1, ptags = C.two_runs(case, new, lambda c, sn, side: run_tetra(
+        "q8_tetrahedral(transformed)" if side else "q8_tetrahedral(original)", dict(c, proto=case["proto"]), sn, side))
+    noise = C.coord_noise(case, new)
+    amb, dmin = tetra_ambiguous(case, noise)
     inv = inv_perm(tf["perm"])
     ok = ~amb[:, inv]
     if ok.any():
-        close_tol("tetrahedral order per particle", q1[ok], q0[:, inv][ok], atol=1e-12, rtol=1e-8)
+        # six squared (cos + 1/3) terms, each cosine carries the relative noise of two bond vectors
+        close_tol("tetrahedral order per particle", q1[ok], q0[:, inv][ok], atol=1e-12 + 10.0 * noise / dmin, rtol=1e-8)
     if amb.any():
         tags.append("has-ambiguous")
-    return {"nontrivial": bool(ok.any() and C.nondegenerate(q0[~amb])), "tags": tags,
-            "extra": {"particles_ambiguous": int(amb.sum()), "particles_asserted": int(ok.sum())}}
+    return {"nontrivial": bool(ok.any() and C.nondegenerate(q0[~amb])), "tags": tags + ptags,
+            "extra": {"particles_ambiguous": int(amb.sum()), "particles_asserted": int(ok.sum()),
+                      "kept_results_rechecked": kept.verify()}}
 
 
 # ============================================================================= Hessian
@@ -300,7 +490,7 @@ def perp_widths(H):
 
 
 @st.composite
-def hess_case(draw):
+def hess_case(draw, size="mixed"):
     allowed = ["translate", "lattice", "perm", "swap", "axes", "rotate"]
     want = draw(C.pick(allowed))
     model = draw(C.pick(MODELS))
@@ -311,26 +501,47 @@ def hess_case(draw):
     sig = sig / sig.max() * draw(st.sampled_from([1.0, 1.0, 0.7, 1.6]))
     smax = float(sig.max())
     rc = sig.copy() if model == "harmonic_hertz" else sig * _sym(draw, K, c_lo, c_hi)
+    inteps = C.chance(draw, 4)          # integer-valued cohesive energies (handed over as int64 on one side)
     eps = _sym(draw, K, 0.5, 2.0)
-    if K > 1 and draw(st.booleans()):
+    if inteps:
+        eps = np.maximum(1.0, np.rint(eps))
+    mass_mode = draw(C.pick(["equal", "unequal", "unequal", "unequal-int"])) if K > 1 else "equal"
+    if mass_mode == "unequal":
         masses = np.array(draw(st.lists(st.integers(5, 50), min_size=K, max_size=K, unique=True)), dtype=float) / 10.0
+    elif mass_mode == "unequal-int":
+        masses = np.array(draw(st.lists(st.integers(1, 9), min_size=K, max_size=K, unique=True)), dtype=float)
     else:
         masses = np.full(K, draw(st.sampled_from([1.0, 2.5])))
     a0 = smax * draw(fl(fa_lo, fa_hi))
     stretch = [0.0, 0.0, 0.03, 0.06] if model == "harmonic_hertz" else [0.0, 0.0, 0.1, 0.25]
     ak = a0 * (1.0 + np.array([draw(st.sampled_from(stretch)) for _ in range(d)]))
-    bl = [draw(st.integers(2, 4)) for _ in range(d)] if d == 2 else [draw(st.integers(1, 3)) for _ in range(d)]
-    if int(np.prod(bl)) < 4:
-        bl[0], bl[1] = 2, 2
+    if size == "large" or (size == "mixed" and C.chance(draw, 16)):
+        # particle number on a block boundary: a larger blob (the assembly is a Python double loop over particles)
+        N = draw(C.pick(C.boundary_sizes(31, 133) if size != "large" else C.boundary_sizes(190, 260)))
+        m = int(np.ceil(N ** (1.0 / d)))
+        bl = [m] * d
+        bulk = True
+    else:
+        bl = [draw(st.integers(2, 4)) for _ in range(d)] if d == 2 else [draw(st.integers(1, 3)) for _ in range(d)]
+        if int(np.prod(bl)) < 4:
+            bl[0], bl[1] = 2, 2
+        N = None
+        bulk = False
     sites = np.array(list(itertools.product(*[range(b) for b in bl])), dtype=float)
-    N = draw(st.integers(max(4, K), min(12, len(sites))))
-    sites = sites[list(draw(st.permutations(range(len(sites))))[:N])]
+    seed = draw(st.integers(0, 2 ** 32 - 1))
+    rng = np.random.default_rng(seed)
+    if N is None:
+        N = draw(st.integers(max(4, K), min(12, len(sites))))
+        sites = sites[list(draw(st.permutations(range(len(sites))))[:N])]
+    else:
+        sites = sites[rng.permutation(len(sites))[:N]]
     jmax = (a0 - DMIN * smax) / (2.0 * np.sqrt(d))
     jf = draw(st.sampled_from([0.0, 0.3, 1.0, 1.0, 1.0]))
-    local = sites * ak + jf * jmax * draw(dense((N, d), fl(-1.0, 1.0)))
+    jit = rng.uniform(-1.0, 1.0, size=(N, d)) if bulk else draw(dense((N, d), fl(-1.0, 1.0)))
+    local = sites * ak + jf * jmax * jit
     diam = float(np.linalg.norm((np.array(bl) - 1) * ak + 2 * jf * jmax))
     ppp = draw(C.ppp_for(d, want))
-    tri = bool(ppp.all()) and want != "axes" and draw(st.integers(0, 1)) == 0
+    tri = bool(ppp.all()) and draw(st.integers(0, 1)) == 0
     W = 1.06 * max(2.0 * rc.max(), diam + rc.max())
     L = W * np.array([draw(st.sampled_from([1.0, 1.0, 1.3, 2.0])) for _ in range(d)])
     Hm = np.diag(L)
@@ -348,23 +559,43 @@ def hess_case(draw):
     origin = draw(dense((d,), fl(0.0, 1.0, exclude_max=True))) @ Hm
     f = geom.frac_coords(origin + local, Hm)
     f = np.where(ppp > 0, f - np.floor(f), f)      # wrapped through the periodic faces only
-    images = np.zeros((N, d))
-    if draw(st.booleans()):
-        images = draw(hnp.arrays(np.int64, (N, d), elements=st.integers(-1, 1))).astype(float) * ppp
+    images, unwrapped = draw(C.unwrap_st(N, d, ppp, rng=rng if bulk else None))
     pos = lo + (f + images) @ Hm
     cell = {"d": d, "kind": "tri" if tri else "ortho", "H": Hm, "lo": lo, "origin": "any"}
-    case = {"d": d, "cell": cell, "pos": [pos], "types": draw(types_st(N, K)), "ppp": ppp, "K": K, "kind": f"blob-j{jf}",
-            "timesteps": [0], "outside": bool(np.any(images)), "model": model, "eps": eps, "sig": sig, "rc": rc,
-            "masses": masses,
+    if bulk:
+        types = np.concatenate([np.arange(1, K + 1), rng.integers(1, K + 1, size=N - K)])[rng.permutation(N)].astype(int)
+    else:
+        types = draw(types_st(N, K))
+    case = {"d": d, "cell": cell, "pos": [pos], "types": types, "ppp": ppp, "K": K, "kind": f"blob-j{jf}",
+            "timesteps": [0], "outside": bool(np.any(images)), "unwrapped": unwrapped, "model": model, "eps": eps, "sig": sig,
+            "rc": rc, "masses": masses, "mass_mode": mass_mode, "inteps": inteps, "seed": seed, "bulk": bulk,
             "n": draw(st.sampled_from([6, 10, 12, 10.0, 12.0])) if draw(st.integers(0, 3)) else draw(fl(4.0, 14.0)),
             "A": draw(st.one_of(st.just(1.0), nice_float(0.5, 3.0))),
             "alpha": draw(st.sampled_from([2.0, 2.5, 3.0])) if draw(st.integers(0, 3)) else draw(fl(2.0, 3.0)),
-            "shift": draw(st.booleans())}
-    case["tf"] = draw(tf_st(allowed, N=N, K=K, d=d, F=1, ortho=not tri, ppp=ppp, first=want))
+            "shift": draw(st.booleans()), "obs": "hessian",
+            # how the species tables reach the routine on the transformed side
+            "mass_rep": draw(C.pick(["plain", "plain", "extra-keys", "reversed", "int-values"])),
+            "saveevecs": C.chance(draw, 3), "savehessian": not C.chance(draw, 6),
+            "proto": draw(C.pick(["fresh", "fresh", "fresh", "inplace", "default-stem"]))}
+    case["tf"] = draw(tf_st(allowed, N=N, K=K, d=d, F=1, ortho=not tri, ppp=ppp, first=want, rng=rng if bulk else None))
     return case
 
 
-def run_hess(name, c, eps, sig, rc, masses, stem):
+def mass_dict(masses, rep):
+    """masses: dict type id -> mass, in the representations a caller may use"""
+    K = len(masses)
+    items = [(k + 1, float(x)) for k, x in enumerate(masses)]
+    if rep == "int-values" and all(float(x).is_integer() for _, x in items):
+        items = [(k, int(x)) for k, x in items]
+    if rep == "extra-keys":          # more species in the table than the configuration uses
+        items = [(K + 2, 77.0)] + items + [(K + 1, 0.125)]
+    if rep == "reversed":
+        items = items[::-1]
+    return dict(items)
+
+
+def run_hess(name, c, eps, sig, rc, masses, stem, snap=None, side=0, case=None):
+    case = c if case is None else case
     m = c["model"]
     if m == "lennard_jones":
         ip = InteractionParams(model_name=ModelName.lennard_jones)
@@ -372,31 +603,43 @@ def run_hess(name, c, eps, sig, rc, masses, stem):
         ip = InteractionParams(model_name=ModelName.inverse_power_law, ipl_n=c["n"], ipl_A=c["A"])
     else:
         ip = InteractionParams(model_name=ModelName.harmonic_hertz, harmonic_hertz_alpha=c["alpha"])
-    snap = gen.snapshot_from(c["cell"], c["pos"][0], c["types"])
-    h = HessianMatrix(snapshot=snap, masses={k + 1: float(x) for k, x in enumerate(masses)}, epsilons=np.array(eps),
-                      sigmas=np.array(sig), r_cuts=np.array(rc), ppp=np.array(c["ppp"]), shiftpotential=bool(c["shift"]))
-    f_h, f_c = f"{stem}.hessianmatrix.npy", f"{stem}.omega_PR.csv"
-    for fn in (f_h, f_c):
+    snap = gen.snapshot_from(c["cell"], c["pos"][0], c["types"]) if snap is None else snap
+    eps = np.array(eps)
+    if side == 1 and case.get("inteps"):
+        eps = np.rint(eps).astype(np.int64)
+    h = HessianMatrix(snapshot=snap, masses=mass_dict(masses, case.get("mass_rep", "plain") if side == 1 else "plain"),
+                      epsilons=eps, sigmas=np.array(sig), r_cuts=np.array(rc), ppp=np.array(c["ppp"]),
+                      shiftpotential=bool(c["shift"]))
+    default_stem = case.get("proto") == "default-stem" and side == 1
+    out_stem = ModelName[m].name if default_stem else stem
+    f_h, f_c, f_e = f"{out_stem}.hessianmatrix.npy", f"{out_stem}.omega_PR.csv", f"{out_stem}.evecs.npy"
+    for fn in (f_h, f_c, f_e):
         if os.path.exists(fn):
             os.remove(fn)
+    saveh, savee = bool(case.get("savehessian", True)), bool(case.get("saveevecs", False))
     with np.errstate(all="ignore"):
-        h.diagonalize_hessian(interaction_params=ip, saveevecs=False, savehessian=True, outputfile=stem)
-    require(os.path.exists(f_h) and os.path.exists(f_c), f"{name}: output files not written")
+        h.diagonalize_hessian(interaction_params=ip, saveevecs=savee, savehessian=saveh,
+                              **({} if default_stem else {"outputfile": stem}))
+    require(os.path.exists(f_c), f"{name}: {f_c} not written")
+    require(os.path.exists(f_h) == saveh, f"{name}: savehessian={saveh} but {f_h} " + ("missing" if saveh else "written"))
+    require(os.path.exists(f_e) == savee, f"{name}: saveevecs={savee} but {f_e} " + ("missing" if savee else "written"))
     dN = c["d"] * len(c["types"])
-    Hm = arr(f"{name} saved Hessian", np.load(f_h), shape=(dN, dN)).astype(float)
+    Hm = arr(f"{name} saved Hessian", np.load(f_h), shape=(dN, dN)).astype(float) if saveh else None
+    ev = arr(f"{name} saved eigenvectors", np.load(f_e), shape=(dN, dN)).astype(float) if savee else None
     df = pd.read_csv(f_c)
     columns(f"{name} omega_PR.csv", df, ["omega", "PR"])
     om = arr(f"{name} omega", col(name, df, "omega"), shape=(dN,)).astype(float)
     pr = arr(f"{name} PR", col(name, df, "PR"), shape=(dN,)).astype(float)
-    return Hm, om, pr
+    return Hm, om, pr, ev
 
 
 def check_hess(case):
     tf = case["tf"]
     d, N = case["d"], len(case["types"])
-    tags = [case["model"], f"d{d}", f"K{case['K']}", case["cell"]["kind"], mask_tag(case["ppp"]),
-            "shift" if case["shift"] else "noshift", "outside" if case["outside"] else "inside",
-            "mass-equal" if np.ptp(case["masses"]) == 0 else "mass-unequal", case["kind"]] + tf_tags(tf)
+    tags = [case["model"], "shift" if case["shift"] else "noshift", "mass-" + case["mass_mode"], "massrep-" + case["mass_rep"],
+            "eps-int64" if case["inteps"] else "eps-float", "saveevecs" if case["saveevecs"] else "no-evecs",
+            "savehessian" if case["savehessian"] else "no-savehessian", "proto-" + case["proto"]] \
+        + C.config_tags(case) + tf_tags(tf, ["hessian-matrix", "omega", "PR"])
     # decision boundary: a pair on its cut-off
     ii, jj, _, dist, _ = C.pair_info(case, 0)
     t0 = np.asarray(case["types"]) - 1
@@ -407,19 +650,28 @@ def check_hess(case):
     sm = lambda m: C_swap(m, tf["sigma"])  # noqa: E731
     mass1 = np.empty_like(case["masses"])
     mass1[np.asarray(tf["sigma"], dtype=int) - 1] = case["masses"]
-    H0, om0, pr0 = run_hess("Hessian(original)", case, case["eps"], case["sig"], case["rc"], case["masses"], "h0")
-    H1, om1, pr1 = run_hess("Hessian(transformed)", new, sm(case["eps"]), sm(case["sig"]), sm(case["rc"]), mass1, "h1")
+    snap0 = gen.snapshot_from(case["cell"], case["pos"][0], case["types"])
+    H0, om0, pr0, ev0 = run_hess("Hessian(original)", case, case["eps"], case["sig"], case["rc"], case["masses"], "h0", snap0, 0, case)
+    snap1 = None
+    if case["proto"] == "inplace":
+        from PyMatterSim.reader.reader_utils import Snapshots
+        snap1 = C.mutate_snaps(Snapshots(nsnapshots=1, snapshots=[snap0]), new).snapshots[0]
+    H1, om1, pr1, ev1 = run_hess("Hessian(transformed)", new, sm(case["eps"]), sm(case["sig"]), sm(case["rc"]), mass1, "h1",
+                                 snap1, 1, case)
     # expected matrix: u' = P u with P[(perm[i], a'), (i, a)] = A[a', a]
     A = linear_part(tf, d)
     perm = np.asarray(tf["perm"], dtype=int)
     P = np.zeros((d * N, d * N))
     for i in range(N):
         P[perm[i] * d:(perm[i] + 1) * d, i * d:(i + 1) * d] = A
-    want = P @ H0 @ P.T
-    gmax = float(np.abs(H0).max())
-    blk = np.abs(want).reshape(N, d, N, d).max(axis=(1, 3))
-    atol = 1e-8 * np.repeat(np.repeat(blk, d, axis=0), d, axis=1) + 1e-10 * gmax
-    close_tol("saved Hessian matrix (transformed vs P H P^T of the original)", H1, want, atol=atol, rtol=0.0)
+    nontrivial = True
+    if H0 is not None:
+        want = P @ H0 @ P.T
+        gmax = float(np.abs(H0).max())
+        blk = np.abs(want).reshape(N, d, N, d).max(axis=(1, 3))
+        atol = 1e-8 * np.repeat(np.repeat(blk, d, axis=0), d, axis=1) + 1e-10 * gmax
+        close_tol("saved Hessian matrix (transformed vs P H P^T of the original)", H1, want, atol=atol, rtol=0.0)
+        nontrivial = bool(gmax > 0 and np.count_nonzero(H0) > d * d)
     lam0 = np.where(om0 > 0, om0 ** 2, om0)
     lam1 = np.where(om1 > 0, om1 ** 2, om1)
     nrm = max(float(np.abs(lam0).max()), 1e-300)
@@ -435,8 +687,14 @@ def check_hess(case):
     iso = gap > 1e-3 * nrm
     if iso.any():
         close_tol("participation ratio of isolated modes", pr1[iso], pr0[iso], atol=1e-11 * nrm / gap[iso], rtol=1e-8)
-    return {"nontrivial": bool(gmax > 0 and np.count_nonzero(H0) > d * d), "tags": tags,
-            "extra": {"pr_modes_asserted": int(iso.sum()), "modes": len(lam0)}}
+    nvec = 0
+    if ev0 is not None and iso.any():
+        # saved eigenvectors of isolated modes: column k of the transformed run = +- P (column k of the original)
+        ov = np.abs(np.einsum("ik,ik->k", P @ ev0[:, iso], ev1[:, iso]))
+        nvec = int(iso.sum())
+        close_tol("saved eigenvectors of isolated modes: |<P e_k, e'_k>|", ov, np.ones(nvec), atol=1e-9 * nrm / gap[iso], rtol=0.0)
+    return {"nontrivial": bool(nontrivial and nrm > 1e-300), "tags": tags,
+            "extra": {"pr_modes_asserted": int(iso.sum()), "modes": len(lam0), "eigenvectors_asserted": nvec}}
 
 
 def C_swap(m, sigma):
@@ -450,14 +708,19 @@ def C_swap(m, sigma):
 
 
 @st.composite
-def dyn_case(draw):
+def dyn_case(draw, size="mixed"):
     allowed = ["translate", "lattice", "perm", "swap", "axes"]
     want = draw(C.pick(allowed))
     d = draw(C.pick([2, 3]))
-    cell = draw(cell_st(d, "ortho" if want == "axes" else "any", lmin=3.0, lmax=20.0, origin="any"))
-    N = draw(st.integers(3, 10))
-    K = 2 if want == "swap" else draw(st.integers(1, 2))
+    cell = draw(cell_st(d, "any", lmin=3.0, lmax=20.0, origin="any"))
+    if C.chance(draw, 5):
+        cell = C.integerise(cell)
+    N, bulk = draw(C.size_st((3, 10), size))
+    K = draw(st.integers(2, 3)) if want == "swap" else draw(st.integers(1, 3))
+    N = max(N, K)
     T = draw(st.integers(2, 5))
+    if not bulk and size != "large" and C.chance(draw, 12):
+        T = draw(st.sampled_from([31, 32, 33]))           # number of frames on a block boundary
     mode = draw(C.pick(["xu", "x", "both"]))
     if mode == "x":
         ppp = draw(ppp_st(d, True))
@@ -467,53 +730,112 @@ def dyn_case(draw):
         ppp = np.ones(d, dtype=int)
     else:
         ppp = draw(C.pick([np.zeros(d, dtype=int), np.ones(d, dtype=int)]))
-    f0, kind = draw(C.fracs_st(d, N, exact_ok=False, kinds=("gas", "lattice-jit", "cluster")))
+    seed = draw(st.integers(0, 2 ** 32 - 1))
+    rng = np.random.default_rng(seed)
+    critical = mode == "x" and bool(ppp.all()) and cell["kind"] == "tri" and C.chance(draw, 4)
+    if critical:
+        # every particle makes the SAME step, short in every Cartesian component but beyond the half cell along the
+        # first cell vector of a strongly tilted cell (EXTENSION_3 class 4: the whole batch is in the critical region)
+        sgn = draw(st.sampled_from([-1.0, 1.0]))
+        cell["H"][1, 0] = sgn * 0.45 * cell["H"][0, 0]
+    if bulk:
+        kind = "bulk-" + draw(C.pick(["gas", "lattice-jit", "cluster"]))
+        f0 = C.bulk_fracs(rng, N, d, kind[5:])
+    else:
+        f0, kind = draw(C.fracs_st(d, N, exact_ok=False, kinds=("gas", "lattice-jit", "cluster")))
     fu = [f0]
     for _ in range(T - 1):
         amp = draw(C.pick([0.005, 0.02, 0.1, 0.3, 0.3]))
-        step = amp * draw(dense((N, d), fl(-1.0, 1.0)))
-        if draw(st.integers(0, 3)) == 3:       # some particles arrested in this interval
-            step = step * draw(hnp.arrays(np.int64, (N, 1), elements=st.integers(0, 1)))
+        if critical:
+            base = np.zeros(d)
+            base[0], base[1] = 0.62, -0.4 * sgn
+            step = base[None, :] * draw(st.sampled_from([1.0, -1.0])) + 1e-3 * rng.uniform(-1.0, 1.0, size=(N, d))
+        elif bulk or T > 8:
+            step = amp * rng.uniform(-1.0, 1.0, size=(N, d))
+        else:
+            step = amp * draw(dense((N, d), fl(-1.0, 1.0)))
+        if draw(st.integers(0, 3)) == 3 and not critical:       # some particles arrested in this interval
+            step = step * (rng.integers(0, 2, size=(N, 1)) if (bulk or T > 8) else
+                           draw(hnp.arrays(np.int64, (N, 1), elements=st.integers(0, 1))))
         fu.append(fu[-1] + step)
     H, lo = cell["H"], cell["lo"]
     pos_u = [lo + f @ H for f in fu]
     pos_x = [lo + np.where(ppp > 0, f - np.floor(f), f) @ H for f in fu]
     t0 = draw(st.integers(0, 10 ** 5))
     dts = draw(st.integers(1, 2000))
-    sig2 = draw(st.sampled_from([1.0, 1.4, 0.8]))
+    diam = np.array([1.0, draw(st.sampled_from([1.0, 1.4, 0.8])), draw(st.sampled_from([2.0, 1.2, 3.0]))][:K]) \
+        * draw(st.sampled_from([1.0, 1.0, 0.5, 2.0]))
+    if bulk:
+        types = np.concatenate([np.arange(1, K + 1), rng.integers(1, K + 1, size=N - K)])[rng.permutation(N)].astype(int)
+    else:
+        types = draw(types_st(N, K))
     case = {"d": d, "cell": cell, "pos": pos_x if mode == "x" else pos_u, "posx": pos_x if mode == "both" else None,
-            "types": draw(types_st(N, K)), "ppp": ppp, "K": K, "kind": kind,
-            "timesteps": [t0 + k * dts for k in range(T)], "outside": False, "mode": mode,
-            "diam": np.array([1.0, sig2][:K]) * draw(st.sampled_from([1.0, 1.0, 0.5])),
-            "a": draw(st.sampled_from([0.1, 0.3, 0.5, 1.0])), "cal_type": draw(st.sampled_from(["slow", "slow", "fast"])),
-            "qconst": draw(st.sampled_from([2 * np.pi, 7.0, 1.0])), "dt": draw(st.sampled_from([0.002, 1.0, 0.005]))}
+            "types": types, "ppp": ppp, "K": K, "kind": kind + ("+critical-steps" if critical else ""),
+            "timesteps": [t0 + k * dts for k in range(T)], "outside": False, "mode": mode, "seed": seed, "critical": critical,
+            "diam": diam, "a": draw(st.sampled_from([0.1, 0.3, 0.5, 1.0])),
+            "cal_type": draw(st.sampled_from(["slow", "slow", "fast"])),
+            "qconst": draw(st.sampled_from([2 * np.pi, 7.0, 1.0])), "dt": draw(st.sampled_from([0.002, 1.0, 0.005])),
+            "obs": "relaxation", "proto": draw(C.pick(C.PROTOCOLS)), "intcell": True,
+            "diam_rep": draw(C.pick(["plain", "plain", "extra-keys", "reversed", "int-values"])),
+            # type ids that are not 1..K on the transformed side (the routine only looks the diameters up by label)
+            "labels": sorted(draw(st.lists(st.integers(1, 9), min_size=K, max_size=K, unique=True))) if C.chance(draw, 4)
+            else list(range(1, K + 1))}
+    big = bulk or T > 8
     cond = None
     if draw(st.integers(0, 2)) == 0:
-        cond = draw(hnp.arrays(np.bool_, (T, N)))
+        cond = (rng.integers(0, 2, size=(T, N)) > 0) if big else draw(hnp.arrays(np.bool_, (T, N)))
         for k in range(T):
             if not cond[k].any():
                 cond[k, draw(st.integers(0, N - 1))] = True
     case["cond"] = cond
     nl = None
+    case["maxnb_mode"] = "none"
     if draw(st.integers(0, 2)) == 0:
         nl = []
+        top = min(draw(C.pick([4, 4, 8, 12])), N - 1)
         for _ in range(T):
             lists = []
             for i in range(N):
-                idx = draw(st.lists(st.integers(0, N - 2), min_size=1, max_size=min(4, N - 1), unique=True))
-                lists.append([j if j < i else j + 1 for j in idx])
+                if big:
+                    idx = list(rng.permutation(N - 1)[:int(rng.integers(1, top + 1))])
+                else:
+                    idx = draw(st.lists(st.integers(0, N - 2), min_size=1, max_size=top, unique=True))
+                lists.append([int(j) if j < i else int(j) + 1 for j in idx])
             nl.append(lists)
+        case["maxnb_mode"] = draw(C.pick(["default", "exact", "plus"]))
+        mx = max(len(x) for fr in nl for x in fr)
+        case["max_neighbors"] = {"default": None, "exact": mx, "plus": mx + draw(st.integers(1, 3))}[case["maxnb_mode"]]
     case["nl"] = nl
-    case["rows0"] = [list(draw(st.permutations(range(N)))) for _ in range(T)]
-    case["rows1"] = [list(draw(st.permutations(range(N)))) for _ in range(T)]
+    if big:
+        case["rows0"] = [list(rng.permutation(N)) for _ in range(T)]
+        case["rows1"] = [list(rng.permutation(N)) for _ in range(T)]
+    else:
+        case["rows0"] = [list(draw(st.permutations(range(N)))) for _ in range(T)]
+        case["rows1"] = [list(draw(st.permutations(range(N)))) for _ in range(T)]
     case["tf"] = draw(tf_st(allowed, N=N, K=K, d=d, F=T, ortho=cell["kind"] == "ortho", ppp=ppp, per_frame=False,
-                            lattice_per_frame=mode == "x", first=want))
+                            lattice_per_frame=mode == "x", first=want, rng=rng if big else None))
     return case
 
 
-def run_dyn(name, c, posx, diam, cond, nl, rows, tag):
+def diam_dict(diam, rep, labels=None):
+    K = len(diam)
+    labels = list(range(1, K + 1)) if labels is None else list(labels)
+    items = [(int(labels[k]), float(x)) for k, x in enumerate(diam)]
+    if rep == "int-values" and all(float(x).is_integer() for _, x in items):
+        items = [(k, int(x)) for k, x in items]
+    if rep == "extra-keys":
+        spare = [x for x in range(1, 14) if x not in labels]
+        items = [(spare[-1], 9.0)] + items + [(spare[0], 0.25)]
+    if rep == "reversed":
+        items = items[::-1]
+    return dict(items)
+
+
+def run_dyn(name, c, posx, diam, cond, nl, rows, tag, snaps=None, side=0, case=None):
+    case = c if case is None else case
+    proto = case.get("proto", "fresh")
     T = len(c["pos"])
-    main = gen.snapshots_from(c)
+    main = gen.snapshots_from(c) if snaps is None else snaps
     kw = {}
     if c["mode"] == "x":
         kw["x_snapshots"] = main
@@ -524,17 +846,34 @@ def run_dyn(name, c, posx, diam, cond, nl, rows, tag):
     if nl is not None:
         C.write_listfile(f"dyn{tag}.dat", nl, rows=rows)
         kw["neighborfile"] = f"dyn{tag}.dat"
-    dyn = Dynamics(dt=c["dt"], ppp=np.array(c["ppp"]), diameters={k + 1: float(x) for k, x in enumerate(diam)},
+        if case.get("max_neighbors") is not None:
+            kw["max_neighbors"] = int(case["max_neighbors"])
+    dyn = Dynamics(dt=c["dt"], ppp=np.array(c["ppp"]),
+                   diameters=diam_dict(diam, case.get("diam_rep", "plain") if side == 1 else "plain",
+                                       case.get("labels") if side == 1 else None),
                    a=c["a"], cal_type=c["cal_type"], **kw)
-    with np.errstate(all="ignore"):
-        df = dyn.relaxation(qconst=c["qconst"], condition=None if cond is None else cond.copy(), outputfile="")
+    outfile = "relax_out.csv" if (proto == "outfile" and side == 1) else ""
     names = "t isf Qt X4_Qt msd alpha2".split()
-    columns(name, df, names)
-    return {n: arr(f"{name}[{n}]", col(name, df, n), shape=(T - 1,)).astype(float) for n in names}
+
+    def evaluate(nm):
+        with np.errstate(all="ignore"):
+            df = C.KEPT.add(nm, dyn.relaxation(qconst=c["qconst"], condition=None if cond is None else cond.copy(),
+                                               outputfile=outfile))
+        columns(nm, df, names)
+        return {n: arr(f"{nm}[{n}]", col(nm, df, n), shape=(T - 1,)).astype(float) for n in names}
+    out = evaluate(name)
+    if outfile:
+        require(os.path.exists(outfile), f"{name}: outputfile not written")
+    if proto == "twice":
+        out2 = evaluate(name + " (2nd relaxation() on the same object)")
+        for n in names:
+            C.same_again(f"{name}[{n}]", out[n], out2[n])
+        out = out2
+    return out
 
 
-def dyn_boundaries(case):
-    """(some displacement sits on the mobility threshold, some wrapped displacement is a half-cell tie)"""
+def dyn_boundaries(case, noise=0.0):
+    """(some displacement sits on the mobility threshold, some wrapped displacement is a half-cell tie, smallest rms)"""
     T = len(case["pos"])
     H, ppp = case["cell"]["H"], case["ppp"]
     a2 = (case["diam"][np.asarray(case["types"]) - 1] * case["a"]) ** 2
@@ -550,37 +889,54 @@ def dyn_boundaries(case):
                 R = np.array([R[i] - R[np.asarray(js, dtype=int)].mean(axis=0) for i, js in enumerate(case["nl"][o])])
             d2 = (R * R).sum(axis=1)
             sel = slice(None) if case["cond"] is None else case["cond"][o]
-            on_thr = on_thr or bool(np.any(np.abs(d2[sel] - a2[sel]) <= 1e-8 * a2[sel]))
+            on_thr = on_thr or bool(np.any(np.abs(d2[sel] - a2[sel]) <= 1e-8 * a2[sel] + 8.0 * noise * np.sqrt(d2[sel])))
     return on_thr, tie_any
 
 
 def check_dyn(case):
     tf = case["tf"]
+    kept = C.new_kept()
     T = len(case["pos"])
-    tags = [f"d{case['d']}", case["cell"]["kind"], "mode-" + case["mode"], mask_tag(case["ppp"]), f"T{T}", f"K{case['K']}",
-            case["cal_type"], "cond" if case["cond"] is not None else "all", "cage" if case["nl"] is not None else "abs"] \
-        + tf_tags(tf)
-    on_thr, tie = dyn_boundaries(case)
+    N = len(case["types"])
+    tags = C.config_tags(case) + ["mode-" + case["mode"], f"T{T}" if T <= 8 else C.size_tag(T, "T"), case["cal_type"],
+                                  "cond" if case["cond"] is not None else "all", "cage" if case["nl"] is not None else "abs",
+                                  "maxnb-" + case["maxnb_mode"], "diamrep-" + case["diam_rep"]] \
+        + (["all-critical-steps"] if case["critical"] else []) + tf_tags(tf, "relaxation")
+    new = apply_tf(case, tf)
+    noise = C.coord_noise(case, new)
+    on_thr, tie = dyn_boundaries(case, noise)
     if tie:
         return {"nontrivial": False, "tags": tags + ["skip-halfcell-tie"]}
-    new = apply_tf(case, tf)
     posx1 = apply_tf(dict(case, pos=case["posx"]), tf)["pos"] if case["posx"] is not None else None
     inv = inv_perm(tf["perm"])
     diam1 = np.empty_like(case["diam"])
     diam1[np.asarray(tf["sigma"], dtype=int) - 1] = case["diam"]
     cond1 = None if case["cond"] is None else case["cond"][:, inv]
     nl1 = None if case["nl"] is None else C.permute_lists(case["nl"], tf["perm"])
-    o0 = run_dyn("relaxation(original)", case, case["posx"], case["diam"], case["cond"], case["nl"], case["rows0"], "0")
-    o1 = run_dyn("relaxation(transformed)", new, posx1, diam1, cond1, nl1, case["rows1"], "1")
-    L2 = float(np.abs(case["cell"]["H"]).max()) ** 2
+    lab = np.asarray(case["labels"], dtype=int)
+    gapped = not np.array_equal(lab, np.arange(1, case["K"] + 1))
+    if gapped:
+        new = dict(new, types=lab[np.asarray(new["types"], dtype=int) - 1])
+        tags.append("labels-not-1..K")
+    o0, o1, ptags = C.two_runs(case, new, lambda c, sn, side: run_dyn(
+        "relaxation(transformed)" if side else "relaxation(original)", c, posx1 if side else case["posx"],
+        diam1 if side else case["diam"], cond1 if side else case["cond"], nl1 if side else case["nl"],
+        case["rows1"] if side else case["rows0"], str(side), sn, side, case))
+    Lm = float(np.abs(case["cell"]["H"]).max())
+    L2 = Lm ** 2
+    qmax = float(case["qconst"] / case["diam"].min())
+    rms = np.sqrt(np.maximum(o0["msd"], 0.0))
     close_tol("relaxation: t", o1["t"], o0["t"], atol=0.0, rtol=1e-12)
-    close_tol("relaxation: isf", o1["isf"], o0["isf"], atol=1e-9, rtol=1e-8)
-    close_tol("relaxation: msd", o1["msd"], o0["msd"], atol=1e-13 * L2, rtol=1e-8)
+    close_tol("relaxation: isf", o1["isf"], o0["isf"], atol=1e-9 + 4.0 * qmax * noise, rtol=1e-8)
+    # msd = <R^2>: a coordinate noise dx on R changes it by <= 2 |R| dx (Cauchy-Schwarz: 2 rms dx), plus dx^2
+    close_tol("relaxation: msd", o1["msd"], o0["msd"], atol=1e-13 * L2 + 8.0 * noise * (rms + noise), rtol=1e-8)
     # alpha2 = c <r^4>/<r^2>^2 - 1 is 0/0 for a trajectory without motion: asserted where the rms displacement exceeds
     # 1e-5 L (coordinates carry an absolute rounding error ~1e-15 L, i.e. <= 1e-10 relative on the dominant terms)
     moving = o0["msd"] >= 1e-10 * L2
     if moving.any():
-        close_tol("relaxation: alpha2", o1["alpha2"][moving], o0["alpha2"][moving], atol=1e-7, rtol=1e-7)
+        # relative noise of a displacement that matters for <r^4>/<r^2>^2: dx / rms, amplified by the kurtosis
+        a2tol = 1e-7 + 40.0 * (1.0 + np.abs(o0["alpha2"][moving])) * noise / rms[moving] * np.sqrt(N)
+        close_tol("relaxation: alpha2", o1["alpha2"][moving], o0["alpha2"][moving], atol=a2tol, rtol=1e-7)
     if not moving.all():
         tags.append("alpha2-no-motion-not-asserted")
     if not on_thr:
@@ -589,27 +945,46 @@ def check_dyn(case):
     else:
         tags.append("Qt-on-threshold-not-asserted")
     varied = bool(np.ptp(o0["Qt"]) > 0 or (0 < o0["Qt"][0] < 1)) or C.nondegenerate(o0["msd"])
-    return {"nontrivial": bool(varied and np.all(np.isfinite(o0["msd"])) and o0["msd"].max() > 0), "tags": tags,
-            "extra": {"Qt_mixed": int(np.any((o0["Qt"] > 0) & (o0["Qt"] < 1)))}}
+    return {"nontrivial": bool(varied and np.all(np.isfinite(o0["msd"])) and o0["msd"].max() > 0), "tags": tags + ptags,
+            "extra": {"Qt_mixed": int(np.any((o0["Qt"] > 0) & (o0["Qt"] < 1))), "kept_results_rechecked": kept.verify()}}
 
 
 # ============================================================================= gyration descriptors
 
 
 @st.composite
-def cloud_case(draw, vector=False):
+def cloud_case(draw, vector=False, size="mixed"):
     d = draw(C.pick([2, 3]))
-    N = draw(st.integers(1 if vector else 2, 30))
+    if size == "large" or (size == "mixed" and C.chance(draw, 6)):
+        N = draw(C.pick(C.boundary_sizes(31, 1030) if size != "large" else C.boundary_sizes(1500, 2100)))
+        bulk = True
+    else:
+        N = draw(st.integers(1 if vector else 2, 30))
+        bulk = False
+    rng = np.random.default_rng(draw(st.integers(0, 2 ** 32 - 1)))
     spread = draw(st.sampled_from([0.5, 2.0, 10.0]))
     centre = np.zeros(d) if vector else draw(dense((d,), fl(-20.0, 20.0)))
-    x = centre + spread * draw(dense((N, d), fl(-1.0, 1.0)))
-    if draw(st.integers(0, 3)) == 0:     # anisotropic cloud
+    intrep = (not bulk) and C.chance(draw, 6)      # integer-valued field / coordinates, handed over as int64 on one side
+    if intrep:
+        x = draw(hnp.arrays(np.int64, (N, d), elements=st.integers(-9, 9), fill=st.nothing())).astype(float)
+        centre = np.zeros(d)
+    else:
+        x = centre + spread * (rng.uniform(-1.0, 1.0, size=(N, d)) if bulk else draw(dense((N, d), fl(-1.0, 1.0))))
+    if draw(st.integers(0, 3)) == 0 and not intrep:     # anisotropic cloud
         x = centre + (x - centre) * np.array([1.0, 0.3, 0.05][:d])
     allowed = ["perm", "axes", "rotate"] + ([] if vector else ["translate"])
+    if intrep:
+        allowed = ["perm", "axes"]
     if N < 2:
         allowed = [k for k in allowed if k != "perm"]
-    tf = draw(tf_st(allowed, N=N, K=1, d=d, F=1, ortho=True, ppp=np.zeros(d, dtype=int)))
-    return {"d": d, "x": x, "tf": tf, "spread": spread, "tvec": 20.0 * tf["tfrac"][0]}
+    tf = draw(tf_st(allowed, N=N, K=1, d=d, F=1, ortho=True, ppp=np.zeros(d, dtype=int), rng=rng if bulk else None))
+    return {"d": d, "x": x, "tf": tf, "spread": spread, "tvec": 20.0 * tf["tfrac"][0], "intrep": intrep,
+            "obs": "pr" if vector else "gyration"}
+
+
+def cloud_tags(case):
+    N = len(case["x"])
+    return ([C.size_tag(N)] if N in C._BOUNDARY_SET and N > 30 else []) + (["rep-int64"] if case["intrep"] else [])
 
 
 def transform_cloud(case):
@@ -618,6 +993,8 @@ def transform_cloud(case):
     c = x.mean(axis=0)
     A = linear_part(tf, case["d"])
     y = (x - c) @ A.T + c + case["tvec"]
+    if case.get("intrep"):
+        y = x @ A.T                  # integer coordinates stay integers (axis permutation about the origin)
     out = np.empty_like(y)
     out[np.asarray(tf["perm"], dtype=int)] = y
     return out
@@ -629,10 +1006,10 @@ def check_gyration(case):
     y = transform_cloud(case)
     names = ["radius_of_gyration", "asphericity", "acylindricity", "shape_anisotropy", "fractal_dimension"] if d == 3 \
         else ["radius_of_gyration", "acylindricity", "fractal_dimension"]
-    tags = [f"d{d}", "N<=3" if len(x) <= 3 else "N>3"] + tf_tags(tf)
+    tags = [f"d{d}", "N<=3" if len(x) <= 3 else "N>3"] + tf_tags(tf, "gyration") + cloud_tags(case)
     with np.errstate(all="ignore"):
         g0 = gyration_tensor(x.copy())
-        g1 = gyration_tensor(y.copy())
+        g1 = gyration_tensor(np.rint(y).astype(np.int64) if case["intrep"] else y.copy())
     for nm, g in (("original", g0), ("transformed", g1)):
         require(isinstance(g, (list, tuple)) and len(g) == len(names), f"gyration_tensor({nm}) returned {g!r}")
     g0 = dict(zip(names, [float(np.real(v)) for v in g0]))
@@ -658,14 +1035,14 @@ def check_gyration(case):
 def check_pr(case):
     tf = case["tf"]
     x = case["x"]
-    tags = [f"d{case['d']}", "N1" if len(x) == 1 else "N>1"] + tf_tags(tf)
+    tags = [f"d{case['d']}", "N1" if len(x) == 1 else "N>1"] + tf_tags(tf, "pr") + cloud_tags(case)
     if float(np.abs(x).max()) < 1e-6:
         return {"nontrivial": False, "tags": tags + ["skip-zero-field"]}
     A = linear_part(tf, case["d"])
     y = np.empty_like(x)
     y[np.asarray(tf["perm"], dtype=int)] = x @ A.T
     p0 = float(participation_ratio(x.copy()))
-    p1 = float(participation_ratio(y.copy()))
+    p1 = float(participation_ratio(np.rint(y).astype(np.int64) if case["intrep"] else y.copy()))
     close_tol("participation ratio", p1, p0, atol=1e-13, rtol=1e-9)
     return {"nontrivial": bool(len(x) >= 2 and 1.0 / len(x) + 1e-9 < p0 < 1 - 1e-9), "tags": tags}
 
